@@ -1,14 +1,15 @@
 package proxy
 
 // Correspondence harness for property C03, unit level (injected with
-// `go test -overlay`): drives the real cloneHeader, Server.checkAddrPattern,
-// serverPoolContext.prepareRequest and compression.compress directly.
+// `go test -overlay`): drives the real cloneHeader, Server.checkAddrPattern and
+// compression.compress directly, and prepareRequest through Proxy.Handle (a real Proxy
+// built from a spec, the package variable fnSendRequest records what every attempt would
+// put on the wire — also with a pool retry policy and failureCodes).
 
 import (
 	"bufio"
 	"bytes"
 	"compress/gzip"
-	stdcontext "context"
 	"encoding/json"
 	"fmt"
 	"io"
@@ -19,7 +20,11 @@ import (
 	"strings"
 	"testing"
 
+	"github.com/megaease/easegress/pkg/context"
+	"github.com/megaease/easegress/pkg/filters"
 	"github.com/megaease/easegress/pkg/protocols/httpprot"
+	"github.com/megaease/easegress/pkg/resilience"
+	"github.com/megaease/easegress/pkg/tracing"
 	"github.com/megaease/easegress/pkg/util/verifh"
 )
 
@@ -36,6 +41,11 @@ type c03uInput struct {
 	Host    string `json:"host"`
 	BodyLen int    `json:"bodyLen"`
 	Limit   int64  `json:"limit"` // prep: FetchPayload limit (-1 stream)
+
+	// prep: pool retry policy (0 = none) and the scripted outcomes of the attempts before the final 200:
+	// "s:503" (a status listed in failureCodes) | "err" (transport error)
+	RetryMax int      `json:"retryMax"`
+	Fails    []string `json:"fails"`
 
 	MinLength int      `json:"minLength"` // compress
 	AE        []string `json:"ae"`        // compress: Accept-Encoding values of the request (nil = absent)
@@ -64,10 +74,21 @@ type c03uObs struct {
 	DecPath   string `json:"decPath"` // oracle: decoded path of the client's request-target
 	RawQuery  string `json:"rawQuery"`
 
+	// prep: one entry per attempt that reached fnSendRequest
+	Atts   []c03uAttempt `json:"atts"`
+	Result string        `json:"result"`
+
 	Did      bool  `json:"did"`
 	RespCL   int64 `json:"respCL"`
 	BodyOK   bool  `json:"bodyOK"`
 	BodySize int   `json:"bodySize"`
+}
+
+type c03uAttempt struct {
+	CL       int64 `json:"cl"`
+	BodySize int   `json:"bodySize"`
+	BodyOK   bool  `json:"bodyOK"`
+	Same     bool  `json:"same"` // method, URL, Host and header equal to the first attempt's
 }
 
 func c03uSorted(h http.Header) [][]string {
@@ -180,6 +201,19 @@ func c03uGen(r *verifh.Rand, i int) interface{} {
 		in.KeepHost = r.Bool(1, 3)
 		in.BodyLen = r.PickInt(0, 0, 1, 10, 100)
 		in.Limit = int64(r.PickInt(0, 0, -1, 1000))
+		if r.Bool(1, 3) {
+			in.RetryMax = r.PickInt(1, 2, 3, 3, 4)
+			nf := r.PickInt(0, 1, 1, 2, 3)
+			for k := 0; k < nf; k++ {
+				in.Fails = append(in.Fails, r.Pick("s:503", "s:503", "err", "s:500"))
+			}
+			if r.Bool(1, 2) {
+				in.BodyLen = r.PickInt(1, 10, 100, 2619)
+				if in.Limit > 0 && int64(in.BodyLen) > in.Limit {
+					in.Limit = 0
+				}
+			}
+		}
 	default:
 		in.Kind = "compress"
 		in.MinLength = r.PickInt(0, 1, 10, 100, 1024)
@@ -292,25 +326,66 @@ func c03uExec(raw json.RawMessage) interface{} {
 			obs.UHost = u.Host
 			obs.IPs = c03uIPTable(u.Host)
 		}
-		spCtx := &serverPoolContext{req: req}
-		if err := spCtx.prepareRequest(svr, stdcontext.Background(), false); err != nil {
-			obs.Err = "prepare"
+		// a real Proxy with one pool; fnSendRequest records every attempt instead of dialling
+		pool := map[string]interface{}{"servers": []interface{}{map[string]interface{}{"url": in.URL, "keepHost": in.KeepHost}}}
+		policies := map[string]resilience.Policy{}
+		if in.RetryMax > 0 {
+			pool["retryPolicy"] = "r"
+			pool["failureCodes"] = []int{503, 500}
+			policies["r"] = &resilience.RetryPolicy{MaxAttempts: in.RetryMax, WaitDuration: "1ms", BackOffPolicy: "random"}
+		}
+		spec, err := filters.NewSpec(nil, "", map[string]interface{}{"name": "verif", "kind": Kind, "pools": []interface{}{pool}})
+		if err != nil {
+			obs.Err = "spec-rejected"
 			return obs
 		}
-		o := spCtx.stdReq
-		obs.OutURL, obs.OutURI, obs.OutPath, obs.OutQuery = o.URL.String(), o.URL.RequestURI(), o.URL.Path, o.URL.RawQuery
-		obs.OutHost = o.Host
-		if obs.OutHost == "" {
-			obs.OutHost = o.URL.Host
+		p := kind.CreateInstance(spec).(*Proxy)
+		p.Init()
+		defer p.Close()
+		p.InjectResiliencePolicy(policies)
+		var first *http.Request
+		fails := in.Fails
+		saved := fnSendRequest
+		defer func() { fnSendRequest = saved }()
+		fnSendRequest = func(o *http.Request, client *http.Client) (*http.Response, error) {
+			k := len(obs.Atts)
+			att := c03uAttempt{CL: o.ContentLength}
+			if o.Body != nil {
+				b, _ := io.ReadAll(o.Body)
+				att.BodyOK, att.BodySize = bytes.Equal(b, body), len(b)
+			} else {
+				att.BodyOK = len(body) == 0
+			}
+			if first == nil {
+				first = o
+				obs.OutURL, obs.OutURI, obs.OutPath, obs.OutQuery = o.URL.String(), o.URL.RequestURI(), o.URL.Path, o.URL.RawQuery
+				obs.OutHost = o.Host
+				if obs.OutHost == "" {
+					obs.OutHost = o.URL.Host
+				}
+				obs.OutMethod, obs.OutCL = o.Method, o.ContentLength
+				obs.Hdrs = c03uSorted(o.Header)
+				obs.BodyOK, obs.BodySize = att.BodyOK, att.BodySize
+				att.Same = true
+			} else {
+				att.Same = o.Method == first.Method && o.URL.String() == first.URL.String() && o.Host == first.Host &&
+					fmt.Sprint(c03uSorted(o.Header)) == fmt.Sprint(c03uSorted(first.Header))
+			}
+			obs.Atts = append(obs.Atts, att)
+			status := 200
+			if k < len(fails) {
+				if fails[k] == "err" {
+					return nil, fmt.Errorf("verif: network error")
+				}
+				fmt.Sscanf(fails[k], "s:%d", &status)
+			}
+			return &http.Response{StatusCode: status, Header: http.Header{}, ContentLength: 0, Body: http.NoBody, Request: o}, nil
 		}
-		obs.OutMethod, obs.OutCL = o.Method, o.ContentLength
-		obs.Hdrs = c03uSorted(o.Header)
-		if o.Body != nil {
-			b, _ := io.ReadAll(o.Body)
-			obs.BodyOK = bytes.Equal(b, body)
-			obs.BodySize = len(b)
-		} else {
-			obs.BodyOK = len(body) == 0
+		ctx := context.New(tracing.NoopSpan)
+		ctx.SetRequest(context.DefaultNamespace, req)
+		obs.Result = p.Handle(ctx)
+		if first == nil {
+			obs.Err = "prepare"
 		}
 	case "compress":
 		req, _ := http.NewRequest("GET", "http://x/", nil)
